@@ -21,7 +21,7 @@ use dashmap::DashMap;
 use grafeo_common::mvcc::VersionChain;
 use grafeo_common::types::{EdgeId, EpochId, HashableValue, NodeId, PropertyKey, TxId, Value};
 use grafeo_common::utils::hash::{FxHashMap, FxHashSet};
-use parking_lot::RwLock;
+use parking_lot::{Mutex, RwLock};
 use std::cmp::Ordering as CmpOrdering;
 #[cfg(any(feature = "tiered-storage", feature = "vector-index"))]
 use std::sync::Arc;
@@ -281,6 +281,11 @@ pub struct LpgStore {
 
     /// Whether statistics need recomputation after mutations.
     needs_stats_recompute: AtomicBool,
+
+    /// Serialises writers of node properties: a property's index entry is moved from the old
+    /// value (which has to be read first) to the new one and the value is stored, as one step.
+    /// Taken before `property_indexes` and the property columns, never while holding them.
+    property_write: Mutex<()>,
 }
 
 impl LpgStore {
@@ -330,6 +335,7 @@ impl LpgStore {
             current_epoch: AtomicU64::new(0),
             statistics: RwLock::new(Statistics::new()),
             needs_stats_recompute: AtomicBool::new(true),
+            property_write: Mutex::new(()),
             config,
         }
     }
@@ -473,6 +479,7 @@ impl LpgStore {
             let prop_key: PropertyKey = key.into();
             let prop_value: Value = value.into();
             // Update property index before setting the property
+            let _writer = self.property_write.lock();
             self.update_property_index_on_set(id, &prop_key, &prop_value);
             self.node_properties.set(id, prop_key, prop_value);
         }
@@ -504,6 +511,7 @@ impl LpgStore {
             let prop_key: PropertyKey = key.into();
             let prop_value: Value = value.into();
             // Update property index before setting the property
+            let _writer = self.property_write.lock();
             self.update_property_index_on_set(id, &prop_key, &prop_value);
             self.node_properties.set(id, prop_key, prop_value);
         }
@@ -718,10 +726,12 @@ impl LpgStore {
             grafeo_common::verif::yield_point("lpg.dn.props");
             let indexed_keys: Vec<PropertyKey> =
                 self.property_indexes.read().keys().cloned().collect();
+            let writer = self.property_write.lock();
             for key in &indexed_keys {
                 self.update_property_index_on_remove(id, key);
             }
             self.node_properties.remove_all(id);
+            drop(writer);
 
             // Note: Caller should use delete_node_edges() first if detach is needed
 
@@ -874,9 +884,11 @@ impl LpgStore {
         // Update property index before setting the property (needs to read old value)
         #[cfg(grafeo_verif)]
         grafeo_common::verif::yield_point("lpg.sp.index");
+        let writer = self.property_write.lock();
         self.update_property_index_on_set(id, &prop_key, &value);
 
         self.node_properties.set(id, prop_key, value);
+        drop(writer);
 
         // Update props_count in record
         let count = self.node_properties.get_all(id).len() as u16;
@@ -894,6 +906,7 @@ impl LpgStore {
         let prop_key: PropertyKey = key.into();
 
         // Update property index before setting the property (needs to read old value)
+        let _writer = self.property_write.lock();
         self.update_property_index_on_set(id, &prop_key, &value);
 
         self.node_properties.set(id, prop_key, value);
@@ -915,9 +928,11 @@ impl LpgStore {
         let prop_key: PropertyKey = key.into();
 
         // Update property index before removing (needs to read old value)
+        let writer = self.property_write.lock();
         self.update_property_index_on_remove(id, &prop_key);
 
         let result = self.node_properties.remove(id, &prop_key);
+        drop(writer);
 
         // Update props_count in record
         let count = self.node_properties.get_all(id).len() as u16;
@@ -937,6 +952,7 @@ impl LpgStore {
         let prop_key: PropertyKey = key.into();
 
         // Update property index before removing (needs to read old value)
+        let _writer = self.property_write.lock();
         self.update_property_index_on_remove(id, &prop_key);
 
         self.node_properties.remove(id, &prop_key)
